@@ -125,10 +125,7 @@ func worldServices(w *World) {
 		}
 		return o
 	}
-	dir, err := os.MkdirTemp("", "verif-static")
-	if err != nil {
-		w.Fail("%v", err)
-	}
+	dir := w.ScratchDir("static")
 	defer os.RemoveAll(dir)
 	fileMarker := marker(w, "file")
 	os.WriteFile(dir+"/secret.txt", []byte("content "+fileMarker+"\n"), 0o644)
